@@ -238,8 +238,12 @@ func runC11InWorker(c c11Case) error {
 			return fmt.Errorf("a decoded value changed after garbage collection: %v", err)
 		}
 	}
-	runtime.KeepAlive(banks)
 	runtime.KeepAlive(kept)
+	// the application is done with the records: banks it kept are closed and will be
+	// handed out again by later reads in this process
+	for _, b := range banks {
+		b.Close()
+	}
 	return nil
 }
 
@@ -259,7 +263,7 @@ func c11Interesting(ts spec.TypeSpec) bool {
 
 func drawC11(t *rapid.T) c11Case {
 	var c c11Case
-	leaves := []string{"gcpoint", "gcpoint", "gcptr", "gcptr", "int64", "string", "bytes", "float64", "int16", "time", "nullString", "nullInt", "bool"}
+	leaves := []string{"gcpoint", "gcpoint", "gcptr", "gcptr", "int64", "string", "bytes", "float64", "int16", "time", "nullString", "nullInt", "nullTime", "nullFloat", "bool"}
 	o := gen.TypeOpts{MaxDepth: 4, MaxFields: 4, Leaves: leaves, ShapeBoost: true}
 	c.Enc.Type = gen.StructType(t, o, 1)
 	if gen.Uniform(t, "sameSizeTypes", 4) == 0 {
